@@ -22,6 +22,7 @@ import (
 )
 
 type imp struct {
+	p        *pkg
 	t        *tr
 	fields   map[string]string // Go lvalue text -> field of the Lean state record
 	unm      map[string]string // Go lvalue text -> unmarshal oracle for that target
@@ -33,19 +34,128 @@ func (m *imp) set(lv, val string) string {
 	return "{ st with " + m.fields[lv] + " := " + val + " }"
 }
 
-// block translates a statement list without returns into a Lean term for the state after it,
-// in terms of the variable `st`.
+// block translates a statement list into a Lean term for the state after it, in terms of the
+// variable `st`, in continuation style: the statements after an `if` / `switch` are translated once
+// per branch, so a branch may leave early. `end` yields the term for falling off the end of the
+// list, `exit` the term for `continue` / a bare `return` (leave the loop body or the inlined helper).
 func (m *imp) block(list []ast.Stmt, ind string) string {
-	var sb strings.Builder
-	for _, s := range list {
-		if as, ok := s.(*ast.AssignStmt); ok && as.Tok == token.DEFINE && len(as.Lhs) == 1 && len(as.Rhs) == 1 {
-			fmt.Fprintf(&sb, "let %s := %s\n%s", src(as.Lhs[0]), m.t.expr(as.Rhs[0]), ind)
-			continue
-		}
-		fmt.Fprintf(&sb, "let st := %s\n%s", m.stmt(s, ind+"  "), ind)
+	st := func(string) string { return "st" }
+	return m.seq(list, ind, st, st)
+}
+
+func (m *imp) seq(list []ast.Stmt, ind string, end, exit func(ind string) string) string {
+	if len(list) == 0 {
+		return end(ind)
 	}
-	sb.WriteString("st")
-	return sb.String()
+	s, rest := list[0], list[1:]
+	next := func(ind string) string { return m.seq(rest, ind, end, exit) }
+	switch v := s.(type) {
+	case *ast.BranchStmt:
+		if v.Tok == token.CONTINUE {
+			return exit(ind)
+		}
+	case *ast.ReturnStmt:
+		if len(v.Results) == 0 {
+			return exit(ind)
+		}
+	case *ast.AssignStmt:
+		if v.Tok == token.DEFINE && len(v.Lhs) == 1 && len(v.Rhs) == 1 {
+			return "let " + src(v.Lhs[0]) + " := " + m.t.expr(v.Rhs[0]) + "\n" + ind + next(ind)
+		}
+	case *ast.BlockStmt:
+		return m.seq(append(append([]ast.Stmt{}, v.List...), rest...), ind, end, exit)
+	case *ast.ExprStmt:
+		// j.helper(args): an unexported method of the message is inlined; its bare `return` continues here
+		if call, ok := v.X.(*ast.CallExpr); ok && src(call.Fun) != m.failCall {
+			if sel, ok := call.Fun.(*ast.SelectorExpr); ok && src(sel.X) == "j" && !ast.IsExported(sel.Sel.Name) && m.p != nil {
+				if hd, _ := findFunc(m.p, "jmessage", sel.Sel.Name); hd != nil && hd.Body != nil && hd.Type.Params.NumFields() == len(call.Args) {
+					saved := map[string]string{}
+					k := 0
+					for _, f := range hd.Type.Params.List {
+						for _, nm := range f.Names {
+							if old, had := m.t.atoms[nm.Name]; had {
+								saved[nm.Name] = old
+							}
+							if src(call.Args[k]) != nm.Name {
+								m.t.atoms[nm.Name] = m.t.expr(call.Args[k])
+							}
+							if f2, ok := m.fields[src(call.Args[k])]; ok {
+								m.fields[nm.Name] = f2
+							}
+							k++
+						}
+					}
+					_ = saved
+					return m.seq(hd.Body.List, ind, next, next)
+				}
+			}
+		}
+	case *ast.IfStmt:
+		prefix := ""
+		if v.Init != nil {
+			as, ok := v.Init.(*ast.AssignStmt)
+			if !ok || as.Tok != token.DEFINE || len(as.Lhs) != 1 || len(as.Rhs) != 1 {
+				fail("%s: if with init statement %q unsupported", m.t.who, src(v.Init))
+			}
+			prefix = "let " + src(as.Lhs[0]) + " := " + m.t.expr(as.Rhs[0]) + "\n" + ind
+		}
+		var cond string
+		if val, target, ok := isUnmarshalFailed(v.Cond); ok {
+			oracle, known := m.unm[target]
+			if !known {
+				fail("%s: json.Unmarshal into %q is not modelled", m.t.who, target)
+			}
+			prefix += "let u := (" + oracle + " " + m.t.expr(val) + " st." + m.fields[target] + ")\n" + ind +
+				"let st := " + m.set(target, "u.1") + "\n" + ind
+			cond = "u.2"
+		} else {
+			cond = m.t.expr(v.Cond)
+		}
+		thenPart := m.seq(append(append([]ast.Stmt{}, v.Body.List...), rest...), ind+"  ", end, exit)
+		var elsePart string
+		switch e := v.Else.(type) {
+		case nil:
+			elsePart = m.seq(rest, ind+"  ", end, exit)
+		case *ast.BlockStmt:
+			elsePart = m.seq(append(append([]ast.Stmt{}, e.List...), rest...), ind+"  ", end, exit)
+		case *ast.IfStmt:
+			elsePart = m.seq(append([]ast.Stmt{e}, rest...), ind+"  ", end, exit)
+		}
+		return prefix + "if " + cond + " then\n" + ind + "  " + thenPart + "\n" + ind + "else\n" + ind + "  " + elsePart
+	case *ast.SwitchStmt:
+		if v.Init != nil || v.Tag == nil {
+			fail("%s: switch without tag / with init unsupported here", m.t.who)
+		}
+		tag := m.t.expr(v.Tag)
+		out := ""
+		hasDef := false
+		type arm struct {
+			cond string
+			body []ast.Stmt
+		}
+		var arms []arm
+		for _, cs := range v.Body.List {
+			cc := cs.(*ast.CaseClause)
+			if cc.List == nil {
+				out, hasDef = m.seq(append(append([]ast.Stmt{}, cc.Body...), rest...), ind+"  ", end, exit), true
+				continue
+			}
+			var conds []string
+			for _, ce := range cc.List {
+				conds = append(conds, "("+tag+" == "+m.t.expr(ce)+")")
+			}
+			arms = append(arms, arm{strings.Join(conds, " || "), cc.Body})
+		}
+		if !hasDef {
+			out = m.seq(rest, ind+"  ", end, exit)
+		}
+		for i := len(arms) - 1; i >= 0; i-- {
+			out = "if " + arms[i].cond + " then\n" + ind + "  " + m.seq(append(append([]ast.Stmt{}, arms[i].body...), rest...), ind+"  ", end, exit) + "\n" + ind + "else\n" + ind + "  " + out
+		}
+		return out
+	}
+	// a simple state update
+	return "let st := " + m.stmt(s, ind+"  ") + "\n" + ind + next(ind)
 }
 
 func isUnmarshalFailed(e ast.Expr) (val ast.Expr, target string, ok bool) {
@@ -199,6 +309,7 @@ func emitParseJSON(fs *strings.Builder, p *pkg, c *consts, funcs map[string]stri
 	atoms := map[string]string{"j.V": "st.v", "j.ID": "st.id", "j.M": "st.m", "j.P": "st.p", "j.E": "st.e", "j.R": "st.r",
 		"extra": "st.extra", "j.err": "st.err", `""`: "([] : List UInt8)"}
 	m := &imp{
+		p:      p,
 		t:      &tr{atoms: atoms, c: c, funcs: fn, who: file + ":parseJSON"},
 		fields: map[string]string{"j.V": "v", "j.ID": "id", "j.M": "m", "j.P": "p", "j.E": "e", "j.R": "r", "extra": "extra", "j.err": "err"},
 		unm:    map[string]string{"j.V": "unmStr", "j.M": "unmStr", "j.E": "unmErr"},
